@@ -102,12 +102,20 @@ def run(ctx):
     # several threads: forced schedules through the real context manager (PyxelSeedThreads)
     from harness import seedthreads
     seedthreads.check_threads(ctx)
+    # seeded blocks recorded by the hooks while the repository's own tests and examples run
+    from harness import hooks
+    hooks.check_seed(ctx)
     ctx.assumptions += ["generator states are compared through a digest of the full legacy state (key, position, pending "
                         "Gaussian)", "model functions without a fixture are listed in the evidence as uncovered"]
 
 
 def replay(ctx, payload):
     case = payload["case"]
+    if case["kind"] == "seedhooktrace":
+        rejected = ctx.validate("SeedHookTrace", [case["trace"]], label="replay", corrupt=None, cfg="SeedHookTrace.cfg")
+        for k, l in rejected:
+            ctx.violation("hooks.seed-replay", f"stored seed-hook trace rejected at event {l}", case, {})
+        return ctx.finish()
     if case["kind"] == "threads":
         from harness import seedthreads
         return seedthreads.replay_threads(ctx, payload)
